@@ -22,6 +22,8 @@ pub struct KindInfo {
     pub nonfused: bool,
     /// waiting ticket protocol over an arbitrary iterator (buffered iterators allocate chunk_size slots)
     pub wrapper: bool,
+    /// zero-sized elements: identity cannot be observed, only counts
+    pub zst: bool,
     pub keymap: KeyMap,
 }
 
@@ -166,7 +168,9 @@ impl Env {
     pub fn take<T: Obs>(&mut self, x: T, pos: usize, idx_reported: bool) {
         let s = x.seen();
         self.obs.push(s.key as u64);
-        if !s.valid {
+        if s.key == ZKEY && self.ki.zst {
+            // nothing to compare
+        } else if !s.valid {
             self.fail(T_LEDGER, "garbage", format!("delivered element at position {pos} is destroyed / uninitialised memory (key {})", s.key));
         } else if s.key != self.key_at(pos) {
             self.fail(if idx_reported { T_INDEX } else { T_CURSOR }, "wrong-element", format!("position {pos}: expected key {} got key {}", self.key_at(pos), s.key));
@@ -551,7 +555,7 @@ where
                                 env.fail(&["C12", "C02"], "foreach-index", format!("enumerate_for_each passed index {idx} for the element of position {pos}"));
                                 break;
                             }
-                            if s.key != env.key_at(pos) || !s.valid {
+                            if (s.key != env.key_at(pos) || !s.valid) && !(env.ki.zst && s.key == ZKEY) {
                                 env.fail(T_FOREACH, "foreach-element", format!("closure call {j} received key {} but position {pos} holds key {}", s.key, env.key_at(pos)));
                                 break;
                             }
@@ -654,14 +658,14 @@ where
                 if !env.m.skipped {
                     // exactly the undelivered suffix, in order (a prefix of it if only k were taken)
                     let want_n = if k == ALL { (env.len - exp_b).min(NPOS) } else { k.min(env.len - exp_b) };
-                    let ok = j == want_n && (0..j).all(|t| got[t] == env.key_at(exp_b + t));
+                    let ok = j == want_n && (env.ki.zst || (0..j).all(|t| got[t] == env.key_at(exp_b + t)));
                     if !ok {
                         let want: Vec<usize> = (exp_b..env.len).map(|p| env.key_at(p)).collect();
                         env.fail(T_REST, "remainder", format!("into_seq_iter yielded keys {:?}; undelivered elements are {:?} (taking {})", got, want, if k == ALL { "all".to_string() } else { k.to_string() }));
                     }
                 } else if k == ALL {
                     // a suffix of the undelivered elements
-                    let ok = j <= env.len - exp_b && (0..j).all(|t| got[t] == env.key_at(env.len - j + t));
+                    let ok = j <= env.len - exp_b && (env.ki.zst || (0..j).all(|t| got[t] == env.key_at(env.len - j + t)));
                     if !ok {
                         env.fail(&["C10", "C06"], "remainder-after-skip", format!("into_seq_iter after skip_to_end yielded keys {:?}, not a suffix of the undelivered elements", got));
                     }
@@ -686,7 +690,14 @@ pub fn end_checks(env: &mut Env, source_still_alive: bool) {
             env.fail(T_LEDGER, "garbage", format!("{} destructor runs on memory that is not a live element", l.garbage.get()));
             return;
         }
-        if env.ki.consuming {
+        if env.ki.zst {
+            env.obs.push(l.zst_dropped.get() as u64);
+            let want = if env.ki.consuming { env.len as u32 } else { 0 };
+            if l.zst_dropped.get() != want {
+                let class = if l.zst_dropped.get() < want { "never-dropped" } else { "dropped-twice" };
+                env.fail(T_LEDGER, class, format!("{} zero-sized elements were destroyed, the collection had {} (expected {want} destructor runs at this point)", l.zst_dropped.get(), env.len));
+            }
+        } else if env.ki.consuming {
             let bad: Vec<(usize, u8)> = (0..llen).filter(|&p| l.dropped[p].get() != 1).map(|p| (p, l.dropped[p].get())).collect();
             if !bad.is_empty() {
                 let class = if bad.iter().all(|b| b.1 == 0) { "never-dropped" } else { "dropped-twice" };
